@@ -431,7 +431,16 @@ func (c *hclient) DeleteWithPropagationPolicy(rs kube.ResourceList, pol metav1.D
 	c.call("delete", func() { res, errs = c.Client.DeleteWithPropagationPolicy(rs, pol) })
 	return
 }
-func (c *hclient) GetWaiter(kube.WaitStrategy) (kube.Waiter, error) { return &waiter{c}, nil }
+// GetWaiter answers like kube.Client.GetWaiter: only the three known strategies have a
+// waiter (the stub stands in for all of them); anything else - in particular the zero value
+// an action forgets to set - is "unknown wait strategy".
+func (c *hclient) GetWaiter(ws kube.WaitStrategy) (kube.Waiter, error) {
+	switch ws {
+	case kube.StatusWatcherStrategy, kube.LegacyStrategy, kube.HookOnlyStrategy:
+		return &waiter{c}, nil
+	}
+	return nil, errors.New("unknown wait strategy")
+}
 
 type waiter struct{ c *hclient }
 
@@ -598,25 +607,25 @@ func (r *Runner) RunOp(op *Op) (so StepObs) {
 				a.ReleaseName, a.Namespace = RelName, RelNS
 				a.Atomic, a.Replace, a.DisableHooks, a.DryRun, a.DryRunOption = f.Atomic, f.Replace, f.NoHooks, f.DryRun, f.DryRunOption
 				a.ClientOnly, a.TakeOwnership = f.ClientOnly, f.TakeOwnership
-				a.Timeout = time.Second
+				a.Timeout, a.WaitStrategy = time.Second, kube.HookOnlyStrategy
 				_, err = a.Run(ch, vals)
 			} else {
 				a := action.NewUpgrade(cfg)
 				a.Namespace = RelNS
 				a.Atomic, a.CleanupOnFail, a.DisableHooks, a.DryRun, a.DryRunOption = f.Atomic, f.Cleanup, f.NoHooks, f.DryRun, f.DryRunOption
 				a.MaxHistory, a.TakeOwnership = f.MaxHistory, f.TakeOwnership
-				a.Timeout = time.Second
+				a.Timeout, a.WaitStrategy = time.Second, kube.HookOnlyStrategy
 				_, err = a.Run(RelName, ch, vals)
 			}
 		case "rollback":
 			a := action.NewRollback(cfg)
 			a.Version, a.CleanupOnFail, a.DisableHooks, a.DryRun, a.MaxHistory = f.Version, f.Cleanup, f.NoHooks, f.IsDry(), f.MaxHistory
-			a.Timeout = time.Second
+			a.Timeout, a.WaitStrategy = time.Second, kube.HookOnlyStrategy
 			err = a.Run(RelName)
 		case "uninstall":
 			a := action.NewUninstall(cfg)
 			a.KeepHistory, a.DisableHooks, a.DryRun = f.KeepHistory, f.NoHooks, f.IsDry()
-			a.Timeout = time.Second
+			a.Timeout, a.WaitStrategy = time.Second, kube.HookOnlyStrategy
 			var resp *rspb.UninstallReleaseResponse
 			resp, err = a.Run(RelName)
 			if resp != nil {
